@@ -73,6 +73,8 @@ def gen_port(w, cfg, platform):
 
     def operand():
         x = w.random()
+        if cfg.get("port_zero") and x < 0.2:
+            return 0
         if x < 0.25:
             return w.choice(BOUNDARY_PORTS)
         if x < 0.8:
@@ -228,7 +230,22 @@ def derive_ace(w, cfg, platform, prev):
 def _derive_ace(w, cfg, platform, prev):
     """Relational generation: a rule related to an earlier one (shadow-rich workloads)."""
     spec = dict(prev)
-    how = w.choice(["dup", "dup", "narrow", "narrow", "narrow", "widen", "flip", "field"])
+    how = w.choice(["dup", "dup", "narrow", "narrow", "narrow", "widen", "flip", "field",
+                    "sibling"])
+    if how == "sibling":
+        # same network and non-contiguous bits, another contiguous low run
+        for side in ("src", "dst"):
+            a = prev[side]
+            if a[0] == "wild" and not is_contig(a[2]):
+                mask = a[2]
+                r = 0
+                while (mask >> r) & 1:
+                    r += 1
+                lowest = min(b for b in range(r, 32) if (mask >> b) & 1)
+                r2 = w.choice([x for x in range(0, lowest) if x != r] or [r])
+                m2 = (mask >> r << r) | ((1 << r2) - 1)
+                spec[side] = ("wild", a[1] & ~m2 & ALL32, m2)
+        return spec
     if how == "dup":
         return spec
     if how == "flip":
@@ -393,4 +410,41 @@ def gen_members(w, platform, n):
             mask = 0x00000503 if w.random() < 0.5 else 0x00010100
             base = _base(w) & ~mask & ALL32
             out.append(f"{ip(base)} {ip(mask)}")
+    return out
+
+
+def _member_line(platform, base, mask):
+    if mask == 0:
+        return f"host {ip(base)}"
+    if platform == "nxos" and is_contig(mask):
+        return f"{ip(base)}/{plen(mask)}"
+    return f"{ip(base)} {ip(mask)}"
+
+
+def gen_member_sets(w, platform):
+    """Related member lists: G1 inside G2 inside SRV, NET-A unrelated (shadow-rich groups)."""
+    core = []
+    for _ in range(w.randint(1, 3)):
+        k = w.choice([2, 4, 8])
+        mask = (1 << k) - 1
+        core.append((_base(w) & ~mask & ALL32, mask))
+    g2 = list(core)
+    g1 = []
+    for base, mask in core[: w.randint(1, len(core))]:
+        a = _narrow_addr(w, ("wild", base, mask))
+        g1.append((a[1], 0) if a[0] == "host" else (a[1], a[2]))
+    srv = []
+    for base, mask in core:
+        a = _widen_addr(w, ("wild", base, mask))
+        srv.append((0, ALL32) if a[0] == "any" else (a[1], a[2]))
+    srv = [(b, m) for b, m in srv if m != ALL32] or list(core)
+    out = {
+        "G1": [_member_line(platform, b, m) for b, m in g1],
+        "G2": [_member_line(platform, b, m) for b, m in g2],
+        "SRV": [_member_line(platform, b, m) for b, m in srv],
+    }
+    if w.random() < 0.6:
+        out["NET-A"] = gen_members(w, platform, w.randint(1, 3))
+    if w.random() < 0.2:
+        out.pop(w.choice(sorted(out)))
     return out
